@@ -86,7 +86,7 @@ pub fn check_limits(text: &str, vm: &Vm, rule: &str, input: &str) -> Result<(usi
     Ok((n, tripped))
 }
 
-fn check_case(ctx: &mut Ctx, g: &Gram, specs: &[InputSpec]) -> Result<(), Fail> {
+pub fn check_case(ctx: &mut Ctx, g: &Gram, specs: &[InputSpec]) -> Result<(), Fail> {
     let Some(p) = prepare(ctx, g)? else { return Ok(()) };
     let alpha = alphabet(&p.cg);
     let absorbing = uses_absorbing_ops(g);
